@@ -17,7 +17,8 @@ View == << pc, kind, buf >>
 Kinds == {"can", "canfd", "lin", "eth", "analog", "cm", "if"}
 Fillb(n, v) == [j \in 1..n |-> (v + 3 * j) % 256]
 
-Sizes(k) == (0..(HeaderSize(k) + 8)) \cup {HeaderSize(k) + 40}
+(* the kinds with 16 bit inner lengths also at sizes whose lengths need the high byte *)
+Sizes(k) == (0..(HeaderSize(k) + 8)) \cup {HeaderSize(k) + 40} \cup (IF k \in {"eth", "cm", "if"} THEN {HeaderSize(k) + 300, HeaderSize(k) + 600} ELSE {})
 Lens8(avail)  == {x \in {0, 1, avail - 1, avail, avail + 1, 254, 255} : x >= 0 /\ x <= 255}
 Lens16(avail) == {x \in {0, 1, avail - 1, avail, avail + 1, 65534, 65535} : x >= 0 /\ x <= 65535}
 
@@ -42,7 +43,7 @@ Buffers(k, n) ==
       [] k = "if" ->
             LET b0 == SetAt(base, 29, 1) IN
             {SetAt(Set16(Set16(b0, 36, c), 38 + c + (c % 2), v), 29, s) :
-                 c \in {x \in Lens16(IF avail >= 4 THEN avail - 4 ELSE 0) : x < 300},
+                 c \in {x \in Lens16(IF avail >= 4 THEN avail - 4 ELSE 0) : x < 700},
                  v \in Lens16(IF avail >= 4 THEN avail - 4 ELSE 0), s \in {0, 2, 3}}
             \cup {Set16(b0, 36, c) : c \in {65534, 65535}}
 
